@@ -7,24 +7,22 @@ namespace A2l.Tree
 open A2l.G A2l.Sc
 
 mutual
-theorem lexW_of (c : RCfg) : ∀ (o : OT) (parms : List Arm) (pib : Bool), o.wf c parms pib → o.lexV → o.endOk → o.lexW
-  | .cmt _ _, _, _, _, h, _ => by simpa [OT.lexV, OT.lexW] using h
-  | .node arm tag blk ty so eo fields items, parms, pib, hw, hv, he => by
+theorem lexW_of (c : RCfg) : ∀ (o : OT) (parms : List Arm) (pib : Bool), o.wf c parms pib → o.lexV → o.lexW
+  | .cmt _ _, _, _, _, h => by simpa [OT.lexV, OT.lexW] using h
+  | .node arm tag blk ty so eo fields items, parms, pib, hw, hv => by
     simp only [OT.wf] at hw
     obtain ⟨a, its, arms, ht, -, -, -, -, -, -, h7, -, -, -, -, h12, h13, -⟩ := hw
     simp only [OT.lexV] at hv
-    simp only [OT.endOk] at he
     simp only [OT.lexW]
-    exact ⟨hv.1, hv.2.1, hv.2.2.1, lexWL_of c items arms blk h13 hv.2.2.2 he.2, he.1, fun hb => h12 (h7 hb).2⟩
+    exact ⟨hv.1, hv.2.1, hv.2.2.1, lexWL_of c items arms blk h13 hv.2.2.2, fun hb => h12 (h7 hb).2⟩
 theorem lexWL_of (c : RCfg) : ∀ (xs : List OT) (parms : List Arm) (pib : Bool), OT.wfL c parms pib xs → OT.lexVL xs →
-    OT.endOkL xs → OT.lexWL xs
-  | [], _, _, _, _, _ => by simp [OT.lexWL]
-  | x :: xs, parms, pib, hw, hv, he => by
+    OT.lexWL xs
+  | [], _, _, _, _ => by simp [OT.lexWL]
+  | x :: xs, parms, pib, hw, hv => by
     simp only [OT.wfL] at hw
     simp only [OT.lexVL] at hv
-    simp only [OT.endOkL] at he
     simp only [OT.lexWL]
-    exact ⟨lexW_of c x parms pib hw.1 hv.1 he.1, lexWL_of c xs parms pib hw.2 hv.2 he.2⟩
+    exact ⟨lexW_of c x parms pib hw.1 hv.1, lexWL_of c xs parms pib hw.2 hv.2⟩
 end
 
 theorem headOk_fixL {c : RCfg} {items : List OT} (hst : c.e.strict = true) (h : HeadOk c items) :
@@ -97,7 +95,7 @@ theorem writable_of_filePost (hst : e.strict = true) {X0 : Array PTok} {rarms : 
 theorem streamLex_of_filePost {X0 : Array PTok} {rarms : List Arm} {v : Val} {items : List OT} {ver : Nat}
     (fp : FilePost e lx X0 rarms v items ver) :
     StreamLex none (OT.toksL 0 (OT.fixL false items)) := by
-  refine streamLex_of_lexW items (lexWL_of _ items rarms false fp.wf fp.lexv fp.eokL) ?_
+  refine streamLex_of_lexW items (lexWL_of _ items rarms false fp.wf fp.lexv) ?_
   intro text off hl
   have hmem : OT.cmt text off ∈ items := List.mem_of_getLast? hl
   have := root_no_cmt items fp.wf _ hmem
